@@ -16,6 +16,14 @@
  *   strerror <n> <message>           op `strerror <n>`
  *   bad-op                           the op is malformed or would read/write out of bounds
  *
+ *   reuse <op> ;; <op> [;; <op> …]   HANDLE REUSE: the ops are executed in order inside one pool of
+ *                                    coupe_data handles; a data set of a later op with the same role
+ *                                    (P/W), representation, type, arity and length as an earlier one
+ *                                    is NOT built again: the values behind the EXISTING handle (the
+ *                                    caller's array, the constant, the memory the callback reads) are
+ *                                    overwritten with the new values and the same handle is passed
+ *                                    again.  Result: the result lines of the ops joined by " ;; ".
+ *
  * data set:  <arr|const|fn> <int|i64|f64> <arity> <len> <k> <v_0> … <v_{k-1}>
  *            (f64 values: IEEE-754 bit patterns in hex; `fn` data is served by a
  *            callback from a padded buffer so that it cannot be mistaken for an array)
@@ -113,65 +121,49 @@ struct dataset {
 	void *padded;       /* `fn`: element i at padded + i*stride */
 	struct fn_ctx ctx;
 	coupe_data *handle;
+	int pooled;         /* owned by the handle pool of a `reuse` op */
 };
 
-static void dataset_free(struct dataset *d)
+/* Handle pool of a `reuse` op (inactive otherwise). */
+#define POOL_MAX 32
+static struct {
+	struct dataset *v[POOL_MAX];
+	char role[POOL_MAX];
+	size_t n;
+	int active;
+} POOL;
+
+static void dataset_destroy(struct dataset *d)
 {
+	if (d == NULL)
+		return;
 	coupe_data_free(d->handle); /* accepts NULL */
 	free(d->buf);
 	free(d->padded);
-	memset(d, 0, sizeof *d);
+	free(d);
 }
 
-/* Parses a data set and builds the library handle.  Returns 0 on a malformed
- * or unsafe description. */
-static int dataset_parse(struct toks *t, struct dataset *d)
+/* End of an op's use of a data set: pooled ones live on until the end of the `reuse` op. */
+static void dataset_free(struct dataset *d)
 {
-	const char *s;
-	uint64_t u;
+	if (d != NULL && !d->pooled)
+		dataset_destroy(d);
+}
+
+static void pool_clear(void)
+{
+	size_t i;
+	for (i = 0; i < POOL.n; i++)
+		dataset_destroy(POOL.v[i]);
+	POOL.n = 0;
+	POOL.active = 0;
+}
+
+/* Reads the k values of the data set into the memory the handle (present or future) reads. */
+static int dataset_fill(struct toks *t, struct dataset *d)
+{
 	size_t i;
 
-	memset(d, 0, sizeof *d);
-	s = next(t);
-	if (s == NULL)
-		return 0;
-	if (strcmp(s, "arr") == 0)
-		d->repr = R_ARR;
-	else if (strcmp(s, "const") == 0)
-		d->repr = R_CONST;
-	else if (strcmp(s, "fn") == 0)
-		d->repr = R_FN;
-	else
-		return 0;
-	s = next(t);
-	if (s == NULL)
-		return 0;
-	if (strcmp(s, "int") == 0) {
-		d->type = COUPE_INT;
-		d->esize = sizeof(int);
-	} else if (strcmp(s, "i64") == 0) {
-		d->type = COUPE_INT64;
-		d->esize = sizeof(int64_t);
-	} else if (strcmp(s, "f64") == 0) {
-		d->type = COUPE_DOUBLE;
-		d->esize = sizeof(double);
-	} else
-		return 0;
-	if (!next_u64(t, &u) || u == 0 || u > 8)
-		return 0;
-	d->arity = u;
-	if (!next_u64(t, &u) || u > 1000000)
-		return 0;
-	d->len = u;
-	if (!next_u64(t, &u) || u > 8000000)
-		return 0;
-	d->k = u;
-	if (d->repr == R_CONST ? d->k != d->arity : d->k != d->len * d->arity)
-		return 0;
-
-	d->buf = calloc(d->k + 1, d->esize); /* never NULL-sized: the header forbids NULL */
-	if (d->buf == NULL)
-		return 0;
 	for (i = 0; i < d->k; i++) {
 		if (d->type == COUPE_DOUBLE) {
 			double x;
@@ -190,7 +182,86 @@ static int dataset_parse(struct toks *t, struct dataset *d)
 				((int64_t *)d->buf)[i] = x;
 		}
 	}
+	if (d->repr == R_FN) {
+		/* one poisoned pad value after each element */
+		size_t stride = (d->arity + 1) * d->esize;
+		memset(d->padded, 0xEE, (d->len + 1) * stride);
+		for (i = 0; i < d->len; i++)
+			memcpy((char *)d->padded + i * stride,
+			       (char *)d->buf + i * d->arity * d->esize,
+			       d->arity * d->esize);
+	}
+	return 1;
+}
 
+/* Parses a data set and builds the library handle — or, inside a `reuse` op, refills the
+ * memory behind the pooled handle of the same role and shape and returns that one.
+ * Returns NULL on a malformed or unsafe description. */
+static struct dataset *dataset_parse(struct toks *t, char role)
+{
+	struct dataset h, *d;
+	const char *s;
+	uint64_t u;
+	size_t i;
+
+	memset(&h, 0, sizeof h);
+	s = next(t);
+	if (s == NULL)
+		return NULL;
+	if (strcmp(s, "arr") == 0)
+		h.repr = R_ARR;
+	else if (strcmp(s, "const") == 0)
+		h.repr = R_CONST;
+	else if (strcmp(s, "fn") == 0)
+		h.repr = R_FN;
+	else
+		return NULL;
+	s = next(t);
+	if (s == NULL)
+		return NULL;
+	if (strcmp(s, "int") == 0) {
+		h.type = COUPE_INT;
+		h.esize = sizeof(int);
+	} else if (strcmp(s, "i64") == 0) {
+		h.type = COUPE_INT64;
+		h.esize = sizeof(int64_t);
+	} else if (strcmp(s, "f64") == 0) {
+		h.type = COUPE_DOUBLE;
+		h.esize = sizeof(double);
+	} else
+		return NULL;
+	if (!next_u64(t, &u) || u == 0 || u > 8)
+		return NULL;
+	h.arity = u;
+	if (!next_u64(t, &u) || u > 1000000)
+		return NULL;
+	h.len = u;
+	if (!next_u64(t, &u) || u > 8000000)
+		return NULL;
+	h.k = u;
+	if (h.repr == R_CONST ? h.k != h.arity : h.k != h.len * h.arity)
+		return NULL;
+
+	if (POOL.active) {
+		for (i = 0; i < POOL.n; i++) {
+			d = POOL.v[i];
+			if (POOL.role[i] == role && d->repr == h.repr && d->type == h.type
+			    && d->arity == h.arity && d->len == h.len)
+				return dataset_fill(t, d) ? d : NULL;
+		}
+	}
+
+	d = malloc(sizeof *d);
+	if (d == NULL)
+		return NULL;
+	*d = h;
+	d->buf = calloc(d->k + 1, d->esize); /* never NULL-sized: the header forbids NULL */
+	if (d->repr == R_FN)
+		d->padded = malloc((d->len + 1) * (d->arity + 1) * d->esize);
+	if (d->buf == NULL || (d->repr == R_FN && d->padded == NULL) || !dataset_fill(t, d)) {
+		dataset_destroy(d);
+		return NULL;
+	}
 	switch (d->repr) {
 	case R_ARR:
 		d->handle = coupe_data_array(d->len, d->type, d->buf);
@@ -198,24 +269,22 @@ static int dataset_parse(struct toks *t, struct dataset *d)
 	case R_CONST:
 		d->handle = coupe_data_constant(d->len, d->type, d->buf);
 		break;
-	case R_FN: {
-		/* one poisoned pad value after each element */
-		size_t stride = (d->arity + 1) * d->esize;
-		d->padded = malloc((d->len + 1) * stride);
-		if (d->padded == NULL)
-			return 0;
-		memset(d->padded, 0xEE, (d->len + 1) * stride);
-		for (i = 0; i < d->len; i++)
-			memcpy((char *)d->padded + i * stride,
-			       (char *)d->buf + i * d->arity * d->esize,
-			       d->arity * d->esize);
+	case R_FN:
 		d->ctx.base = d->padded;
-		d->ctx.stride = stride;
+		d->ctx.stride = (d->arity + 1) * d->esize;
 		d->handle = coupe_data_fn(&d->ctx, d->len, d->type, fn_ith);
 		break;
 	}
+	if (d->handle == NULL) {
+		dataset_destroy(d);
+		return NULL;
 	}
-	return d->handle != NULL;
+	if (POOL.active && POOL.n < POOL_MAX) {
+		d->pooled = 1;
+		POOL.v[POOL.n] = d;
+		POOL.role[POOL.n++] = role;
+	}
+	return d;
 }
 
 /* --------------------------------------------------------- partition array */
@@ -288,14 +357,13 @@ static void report(enum coupe_err e, const struct part *pa)
 		for (i = 0; i < pa->n; i++)
 			printf(" %" PRIuPTR, pa->p[i]);
 	}
-	printf("\n");
 }
 
 /* ------------------------------------------------------------ entry points */
 
 static int op_geometric(struct toks *t, const char *name)
 {
-	struct dataset pts = {0}, ws = {0};
+	struct dataset *pts = NULL, *ws = NULL;
 	struct part pa = {0};
 	uint64_t dim = 2, iter = 0, parts = 0, order = 0;
 	double tol = 0;
@@ -308,36 +376,36 @@ static int op_geometric(struct toks *t, const char *name)
 		if (!next_u64(t, &dim) || !next_u64(t, &iter) || !next_f64(t, &tol))
 			goto out;
 	}
-	if (!next_is(t, "P") || !dataset_parse(t, &pts))
+	if (!next_is(t, "P") || (pts = dataset_parse(t, 'P')) == NULL)
 		goto out;
-	if (!next_is(t, "W") || !dataset_parse(t, &ws))
+	if (!next_is(t, "W") || (ws = dataset_parse(t, 'W')) == NULL)
 		goto out;
 	if (!part_parse(t, &pa) || !at_end(t))
 		goto out;
 	/* memory safety of the call */
-	if (pts.type != COUPE_DOUBLE || ws.arity != 1)
+	if (pts->type != COUPE_DOUBLE || ws->arity != 1)
 		goto out;
-	if (hilbert ? pts.arity != 2 : ((dim == 2 || dim == 3) && pts.arity != dim))
+	if (hilbert ? pts->arity != 2 : ((dim == 2 || dim == 3) && pts->arity != dim))
 		goto out;
-	if (pa.n != pts.len)
+	if (pa.n != pts->len)
 		goto out;
 	ok = 1;
 	if (hilbert)
-		report(coupe_hilbert(pa.p, pts.handle, ws.handle, parts, (uint32_t)order), &pa);
+		report(coupe_hilbert(pa.p, pts->handle, ws->handle, parts, (uint32_t)order), &pa);
 	else if (strcmp(name, "rcb") == 0)
-		report(coupe_rcb(pa.p, dim, pts.handle, ws.handle, iter, tol), &pa);
+		report(coupe_rcb(pa.p, dim, pts->handle, ws->handle, iter, tol), &pa);
 	else
-		report(coupe_rib(pa.p, dim, pts.handle, ws.handle, iter, tol), &pa);
+		report(coupe_rib(pa.p, dim, pts->handle, ws->handle, iter, tol), &pa);
 out:
-	dataset_free(&pts);
-	dataset_free(&ws);
+	dataset_free(pts);
+	dataset_free(ws);
 	free(pa.p);
 	return ok;
 }
 
 static int op_numbers(struct toks *t, const char *name)
 {
-	struct dataset ws = {0};
+	struct dataset *ws = NULL;
 	struct part pa = {0};
 	uint64_t parts = 0;
 	double tol = 0;
@@ -345,28 +413,28 @@ static int op_numbers(struct toks *t, const char *name)
 
 	if (ckk ? !next_f64(t, &tol) : !next_u64(t, &parts))
 		goto out;
-	if (!next_is(t, "W") || !dataset_parse(t, &ws))
+	if (!next_is(t, "W") || (ws = dataset_parse(t, 'W')) == NULL)
 		goto out;
 	if (!part_parse(t, &pa) || !at_end(t))
 		goto out;
-	if (ws.arity != 1 || pa.n != ws.len)
+	if (ws->arity != 1 || pa.n != ws->len)
 		goto out;
 	ok = 1;
 	if (ckk)
-		report(coupe_karmarkar_karp_complete(pa.p, ws.handle, tol), &pa);
+		report(coupe_karmarkar_karp_complete(pa.p, ws->handle, tol), &pa);
 	else if (strcmp(name, "kk") == 0)
-		report(coupe_karmarkar_karp(pa.p, ws.handle, parts), &pa);
+		report(coupe_karmarkar_karp(pa.p, ws->handle, parts), &pa);
 	else
-		report(coupe_greedy(pa.p, ws.handle, parts), &pa);
+		report(coupe_greedy(pa.p, ws->handle, parts), &pa);
 out:
-	dataset_free(&ws);
+	dataset_free(ws);
 	free(pa.p);
 	return ok;
 }
 
 static int op_fm(struct toks *t)
 {
-	struct dataset ws = {0};
+	struct dataset *ws = NULL;
 	struct part pa = {0};
 	uint64_t max_passes, max_moves, max_bad, size, nx, na, nd, u;
 	double imb;
@@ -461,24 +529,24 @@ static int op_fm(struct toks *t)
 			if (adjncy[i] >= size)
 				goto out;
 	}
-	if (!next_is(t, "W") || !dataset_parse(t, &ws))
+	if (!next_is(t, "W") || (ws = dataset_parse(t, 'W')) == NULL)
 		goto out;
 	if (!part_parse(t, &pa) || !at_end(t))
 		goto out;
-	if (ws.arity != 1 || pa.n != ws.len)
+	if (ws->arity != 1 || pa.n != ws->len)
 		goto out;
 	ok = 1;
 	adj = checked ? coupe_adjncy_csr(size, xadj, adjncy, atype, data)
 		      : coupe_adjncy_csr_unchecked(size, xadj, adjncy, atype, data);
 	if (adj == NULL) {
-		printf("NULL_ADJNCY\n");
+		printf("NULL_ADJNCY");
 		goto out;
 	}
-	report(coupe_fiduccia_mattheyses(pa.p, adj, ws.handle, max_passes, max_moves, imb, max_bad),
+	report(coupe_fiduccia_mattheyses(pa.p, adj, ws->handle, max_passes, max_moves, imb, max_bad),
 	       &pa);
 out:
 	coupe_adjncy_free(adj); /* accepts NULL */
-	dataset_free(&ws);
+	dataset_free(ws);
 	free(pa.p);
 	free(xadj);
 	free(adjncy);
@@ -494,7 +562,50 @@ static int op_strerror(struct toks *t)
 	if (!next_u64(t, &code) || !at_end(t) || code > COUPE_ERR_NEG_VALUES)
 		return 0;
 	msg = coupe_strerror((enum coupe_err)code);
-	printf("strerror %d %s\n", (int)code, msg == NULL ? "<null>" : msg);
+	printf("strerror %d %s", (int)code, msg == NULL ? "<null>" : msg);
+	return 1;
+}
+
+/* One algorithm op (tokens of `t` from its name on). Prints its result without newline. */
+static int dispatch(struct toks *t, int allow_strerror)
+{
+	const char *name = next(t);
+
+	if (name == NULL)
+		return 0;
+	if (strcmp(name, "rcb") == 0 || strcmp(name, "rib") == 0 || strcmp(name, "hilbert") == 0)
+		return op_geometric(t, name);
+	if (strcmp(name, "greedy") == 0 || strcmp(name, "kk") == 0 || strcmp(name, "ckk") == 0)
+		return op_numbers(t, name);
+	if (strcmp(name, "fm") == 0)
+		return op_fm(t);
+	if (allow_strerror && strcmp(name, "strerror") == 0)
+		return op_strerror(t);
+	return 0;
+}
+
+/* `reuse <op> ;; <op> …`: the ops share one pool of data set handles. */
+static int op_reuse(struct toks *t)
+{
+	size_t start = t->pos, i, segs = 0;
+
+	if (start >= t->n)
+		return 0;
+	POOL.active = 1;
+	for (i = start; i <= t->n; i++) {
+		if (i == t->n || strcmp(t->v[i], ";;") == 0) {
+			struct toks sub;
+			sub.v = t->v + start;
+			sub.n = i - start;
+			sub.pos = 0;
+			if (segs++ > 0)
+				printf(" ;; ");
+			if (!dispatch(&sub, 0))
+				printf("bad-op");
+			start = i + 1;
+		}
+	}
+	pool_clear();
 	return 1;
 }
 
@@ -508,7 +619,6 @@ int main(void)
 		struct toks t = {0};
 		size_t maxtok = (size_t)got / 2 + 2;
 		char *save = NULL, *tok;
-		const char *name;
 		int ok = 0;
 
 		t.v = malloc(maxtok * sizeof *t.v);
@@ -517,21 +627,14 @@ int main(void)
 		for (tok = strtok_r(line, " \t\r\n", &save); tok != NULL;
 		     tok = strtok_r(NULL, " \t\r\n", &save))
 			t.v[t.n++] = tok;
-		name = next(&t);
-		if (name == NULL)
-			ok = 0;
-		else if (strcmp(name, "rcb") == 0 || strcmp(name, "rib") == 0
-			 || strcmp(name, "hilbert") == 0)
-			ok = op_geometric(&t, name);
-		else if (strcmp(name, "greedy") == 0 || strcmp(name, "kk") == 0
-			 || strcmp(name, "ckk") == 0)
-			ok = op_numbers(&t, name);
-		else if (strcmp(name, "fm") == 0)
-			ok = op_fm(&t);
-		else if (strcmp(name, "strerror") == 0)
-			ok = op_strerror(&t);
+		if (t.n > 0 && strcmp(t.v[0], "reuse") == 0) {
+			t.pos = 1;
+			ok = op_reuse(&t);
+		} else
+			ok = dispatch(&t, 1);
 		if (!ok)
-			printf("bad-op\n");
+			printf("bad-op");
+		printf("\n");
 		fflush(stdout);
 		free(t.v);
 	}
